@@ -6,7 +6,7 @@ import math
 import re
 
 from ..core import World, Violation, Skip
-from ..filekit import FileKit, WRITE_FAULTS, READ_FAULTS, gen_fault, gen_alloc, gen_jump
+from ..filekit import FileKit, WRITE_FAULTS, READ_FAULTS, gen_fault, gen_alloc, gen_jump, side_stream
 
 H2O_LOW = [4.19864056E+00, -2.03643410E-03, 6.52040211E-06, -5.48797062E-09, 1.77197817E-12, -3.02937267E+04,
            -8.49032208E-01]
@@ -43,7 +43,7 @@ class WorldC07(World):
               'reactions-written-in-two-orders', 'auto-and-user-ids-mixed', 'bep-transition-state', 'explicit-transition-state',
               'adsorption-reaction', 'lateral-interactions', 'unnamed-interaction', 'motz-wise-on', 'shomate-species', 'nasa9-species',
               'cti-executed', 'yaml-loaded', 'reactor-yaml', 'reactor-reused-dict', 'numpy-values', 'string-values-with-units',
-              'units-omitted', 'text-path', 'file-path', 'overwrite', 'write-after-failed-write', 'recovery-after-fault', 'alloc-failure-signalled', 'alloc-failure-over-existing-file',
+              'units-omitted', 'text-path', 'file-path', 'overwrite', 'write-after-failed-write', 'recovery-after-fault', 'write-through-symlink', 'relative-name-in-case-directory', 'alloc-failure-signalled', 'alloc-failure-over-existing-file',
               'clock-jump-before-write', 'default-units', 'bep-section-judged', 'same-size-other-elements-after-a-write',
               'explicit-zero-barrier', 'non-ascii-name', 'write-with-partial-membership', 'nasa9-ranges-judged', 'reactor-initial-state',
               'capitalised-phase-names', 'phase-mechanism-links-judged')
@@ -203,7 +203,13 @@ class WorldC07(World):
     def gen_op(self, rng):
         if self.plan:
             return self.plan.pop(0)
+        side = side_stream(rng)
         op = self._gen_op0(rng)
+        if op is not None and op['op'] in ('write_cti', 'write_thermo_yaml', 'write_yaml') and op['args'].get('to_file') \
+                and op.get('fault') is None and side.random() < 0.12:
+            op['args']['link'] = True
+        elif op is not None and op['op'].startswith('write') and isinstance(op.get('args'), dict) and side.random() < 0.15:
+            op['args']['rel'] = side.choice(['caseA', 'caseB', 'caseB/run2'])
         if op is not None and op['op'] in ('write_cti', 'write_thermo_yaml', 'write_yaml') and op['args'].get('to_file') \
                 and rng.random() < 0.06:
             # scripted: the disk fills up half-way through a write; the caller frees space and writes the same thing again;
@@ -667,7 +673,7 @@ class WorldC07(World):
         token = {'kind': name}
         if a.get('enum'):
             return kit.enumerate_faults('_enum.txt', call, judge, a['newline'], what, token)
-        return kit.write(a['path'], call, judge, a['newline'], what, token, fault)
+        return kit.write(a['path'], call, judge, a['newline'], what, token, fault, link=bool(a.get('link')), rel=a.get('rel'))
 
     def _expected_rate(self, tw, i, units, a):
         """(kind, A, beta, Ea) from the twin model's getters, in the requested units."""
@@ -1119,7 +1125,7 @@ class WorldC07(World):
             kit.write_text(call, judge, what)
             return 'text'
         ctx.probe('file-path')
-        return kit.write(a['path'], call, judge, a['newline'], what, {'kind': 'write_yaml'}, fault)
+        return kit.write(a['path'], call, judge, a['newline'], what, {'kind': 'write_yaml'}, fault, link=bool(a.get('link')), rel=a.get('rel'))
 
     LABELS = {'reactor_type': ('reactor', 'type', None), 'temperature_mode': ('reactor', 'temperature_mode', None),
               'pressure_mode': ('reactor', 'pressure_mode', None), 'nodes': ('reactor', 'nodes', None),
